@@ -266,11 +266,23 @@ struct Interp : World<Spline, TM, SM>
         CC ca;
         ca.prog = &prog;
         ca.nseg = m.prob.N();
-        ca.abort_functor = ((abort_functor % 4) + 4) % 4;
+        int af = ((abort_functor % 5) + 5) % 5;
+        ca.abort_functor = af == 4 ? 0 : af;
         long total = ca.abort_functor == 3 ? (long)m.prob.N() * (m.K + 1) : 1;
         ca.abort_call = (long)(((abort_call % total) + total) % total);
         Eigen::VectorXd xa = this->gen_x(m, xseed ^ 0x5bd1e995ULL, 0);
         bool thrown = false;
+        env::Hooks &hk = env::hooks();
+        if (af == 4 && W::kSimMaps)
+        {
+            // cancellation from inside a map call (layout rebuild, decode or back-substitution), simulated maps only;
+            // the harness's own map calls are over by now (gen_x above), so the count starts at the library's first call
+            hk.abort_map_seen = 0;
+            hk.abort_map_fired = false;
+            hk.abort_map_call = (long)(((abort_call % 37) + 37) % 37);
+            hk.abort_map_armed = true;
+            if (abort_call & 64) H.o->setOptimizationFlags(make_flags(m.mask)); // also hit the layout rebuild
+        }
         try
         {
             (void)W::call_eval(*H.o, xa, ca, w, ex, three);
@@ -279,6 +291,8 @@ struct Interp : World<Spline, TM, SM>
         {
             thrown = true;
         }
+        hk.abort_map_armed = false;
+        if (af == 4 && hk.abort_map_fired) ca.abort_functor = 4;
         if (!w) H.m.has_internal_ws = true;
         if (thrown)
         {
@@ -304,7 +318,7 @@ struct Interp : World<Spline, TM, SM>
         cc.trace = (checks & CHK_TRACE) ? &tr : nullptr;
         env::SimExecutor ex = make_exec(ex_mode, ex_seed, workers, m.prob.N());
         if (ex.mode != 0) ctx.mark_nontrivial();
-        if (abort_functor % 4 != 0)
+        if (abort_functor % 5 != 0)
         {
             aborted_eval(H, xseed, w, ex, three, abort_functor, abort_call);
             if (!w) snapshot_exposed(k);
